@@ -625,10 +625,12 @@ def compare_with_spec(tune, sp):
                 'expected': [[float(a), float(b)] for a, b in sp['tempos']]}
     if len(tsigs) != len(sp['meters']) or not all(_tclose(g[0], e[0]) and g[1:] == e[1:]
                                                   for g, e in zip(tsigs, sp['meters'])):
-        return {'what': 'meter', 'got': [g[1:] for g in tsigs], 'expected': [e[1:] for e in sp['meters']]}
+        return {'what': 'meter', 'got': [[float.fromhex(g[0][1])] + g[1:] for g in tsigs],
+                'expected': [[float(e[0])] + e[1:] for e in sp['meters']]}
     if len(ksigs) != len(sp['keys']) or not all(_tclose(g[0], e[0]) and g[1:] == e[1:]
                                                 for g, e in zip(ksigs, sp['keys'])):
-        return {'what': 'key-or-mode', 'got': [g[1:] for g in ksigs], 'expected': [e[1:] for e in sp['keys']]}
+        return {'what': 'key-or-mode', 'got': [[float.fromhex(g[0][1])] + g[1:] for g in ksigs],
+                'expected': [[float(e[0])] + e[1:] for e in sp['keys']]}
     if not _tclose(total, sp['total']):
         return {'what': 'total-time', 'got': float.fromhex(total[1]), 'expected': float(sp['total'])}
     if exp[0] != 'OK':
@@ -673,6 +675,8 @@ def oracle(case, io):
         if c[0] == 'supported':
             if r[2]:
                 return {'kind': 'supported-tune-rejected', 'exception': r[2][0], 'tune': i, 'abc': txt}
+            if len(r[1]) != 1:
+                return {'kind': 'supported-tune-not-returned', 'returned': len(r[1]), 'tune': i, 'abc': txt}
             d = compare_with_spec(r[1][0], c[1])
             if d:
                 d.update({'kind': 'tune-differs-from-abc-rules', 'tune': i, 'abc': txt})
@@ -681,13 +685,15 @@ def oracle(case, io):
             if r[2] != [c[1]] or r[1]:
                 return {'kind': 'unsupported-construct-not-reported', 'expected': c[1], 'got': r[2], 'tune': i, 'abc': txt}
         else:
-            if r[1] and r[1][0][8][0] != 'OK':
+            if len(r[1]) == 1 and r[1][0][8][0] != 'OK':
                 return {'kind': 'expansion-raises', 'exception': r[1][0][8][1], 'tune': i, 'class': 'outside', 'abc': txt}
     # isolation: the tunebook result is the per-tune results put together
     exp_tunes, exp_excs, seen, dup = [], [], set(), False
     for r in alone:
         if r[2]:
             exp_excs.append(r[2][0])
+        elif not r[1]:
+            continue
         else:
             if r[1][0][0] in seen:
                 dup = True
@@ -956,6 +962,8 @@ def gen_body(rng, table, budget, wild=False):
 
 def gen_header(rng, table, ref, wild=False):
     lines = [['f', ['X', ref]]]
+    if rng.random() < 0.06:
+        lines = []          # no X: field (reference number 0; a first section without X: is the file header)
     if rng.random() < 0.8:
         lines.append(['f', ['nop', 'T', 'Tune %d' % ref]])
     extra = []
@@ -1095,6 +1103,9 @@ def corpus():
                     tune(3, C, [n('C'), n('E')]), tune(4, C, [n('C'), ['un', 'invalid', 'z'], n('E')]),
                     tune(5, ['K', 'A', '', 'm', False, []], [n('a'), n('b', '_')])))
     out.append(book(tune(7, C, [n('C')]), tune(7, C, [n('D')])))
+    # a lone tune without X: is a tune (reference number 0), not a file header
+    out.append(book([['f', C], ['m', [n('C'), n('D')]]]))
+    out.append(book([['f', ['L', 1, 4, False]]], [['f', C], ['m', [n('E')]]]))
     # default unit from the meter; deprecated tempo resolved against it
     out.append(book(tune(1, C, [n('C'), n('D', '', '', 3, 1, 2)], extra=[['M', 'frac', 2, 4, ''], ['Q', 'bare', [], 80, '']])))
     return out
